@@ -230,7 +230,7 @@ def zid_assignment_eval(run: Run, model: PyModel, rid: str) -> None:
     ZM = "zorg.storage.sql._zid_manager.ZIDManager"
     I = Interp(model, probes={"zorg.shared.dates.is_long_date_spec": long_date, f"{ZM}.get_next": get_next, ZM: construct_any, "method:*": meth}, max_states=4000)
     fz = model.func(f"{REPO}._add_zids")
-    bodies = ["plain  first word\n  second line", "2024-03-13 dated  note", "2024x03y13 look-alike", "  2024-13-39 impossible date", "10d relative look-alike", "240102 short date first"]
+    bodies = ["plain  first word\n  second line", "2024-03-13 dated  note", "2024x03y13 look-alike", "  2024-13-39 impossible date", "10d relative look-alike", "240102 short date first", "P2P priority look-alike", "P10 another one", "P1 priority-shaped first word of a plain note"]
     st = State()
 
     def N(body, zid):
